@@ -63,8 +63,9 @@ func toStruct(e *oracle.Loc, ancestors bool) poly.Location {
 	return loc
 }
 
-func featureSeq(parent string, loc poly.Location) (string, string) {
+func featureSeq(w *mon.W, id, parent string, loc poly.Location) (string, string) {
 	var got string
+	defer func() { retainCheck(w, id, "GetSequence", got, "Feature.GetSequence on an assembled feature") }()
 	p := mon.Try(func() {
 		var seq poly.Sequence
 		seq.Sequence = parent
@@ -159,6 +160,7 @@ func c02Judge(w *mon.W, id string, x *oracle.Loc, parent string, viaParse bool) 
 				w.Violation(id, fmt.Sprintf("GetSequence of the feature parsed from %s: %s", clip(text, 120), p), rep)
 			} else {
 				w.Add("text_path_evaluations", 1)
+				retainCheck(w, id, "GetSequence", got, "Feature.GetSequence on a feature parsed from "+clip(text, 80))
 				if got != want {
 					w.Violation(id, fmt.Sprintf("feature parsed (genbank.Parse) from %s on %q reports %q, INSDC reading is %q", clip(text, 120), clip(parent, 40), clip(got, 60), clip(want, 60)), rep)
 				}
@@ -172,7 +174,7 @@ func c02Judge(w *mon.W, id string, x *oracle.Loc, parent string, viaParse bool) 
 			parsedOK = false
 		} else {
 			parsedOK = true
-			got, p := featureSeq(parent, parsed)
+			got, p := featureSeq(w, id, parent, parsed)
 			w.Add("text_path_evaluations", 1)
 			if p != "" {
 				w.Violation(id, fmt.Sprintf("GetSequence of the feature parsed from %s: %s", clip(text, 160), p), rep)
@@ -191,7 +193,7 @@ func c02Judge(w *mon.W, id string, x *oracle.Loc, parent string, viaParse bool) 
 		if anc {
 			name = "assembled structure (flags on leaves and ancestors)"
 		}
-		got, p := featureSeq(parent, loc)
+		got, p := featureSeq(w, id, parent, loc)
 		w.Add("structure_path_evaluations", 1)
 		if p != "" {
 			w.Violation(id, fmt.Sprintf("GetSequence of %s for %s: %s", name, clip(text, 160), p), rep)
@@ -208,6 +210,7 @@ func c02Judge(w *mon.W, id string, x *oracle.Loc, parent string, viaParse bool) 
 			continue
 		}
 		w.Add("written_locations_reparsed", 1)
+		retainCheck(w, id, "BuildLocationString", out, "BuildLocationString of "+clip(text, 80))
 		y, e := oracle.ParseLocStrict(out)
 		if e != nil {
 			fixed := k2Rewrite.ReplaceAllString(out, "$1..>$2")
@@ -228,7 +231,7 @@ func c02Judge(w *mon.W, id string, x *oracle.Loc, parent string, viaParse bool) 
 		if p := mon.Try(func() { out1 = genbank.BuildLocationString(b.loc) }); p != "" {
 			continue
 		}
-		got, p := featureSeq(parent, b.loc)
+		got, p := featureSeq(w, id, parent, b.loc)
 		w.Add("evaluations_after_writing", 1)
 		if p != "" || got != want {
 			w.Violation(id, fmt.Sprintf("after BuildLocationString, %s for %s reports %q %s instead of %q: writing altered the location", b.name, clip(text, 160), clip(got, 60), p, clip(want, 60)), rep)
